@@ -227,16 +227,40 @@ def require_actions(parsed, names, what):
 
 # --------------------------------------------------------------------------- harness
 
+def harness_dir():
+    """The harness workspace to build.  Normally /verif/harness (path dependencies on /repo).  For development
+    only, VERIF_REPO=<clean or patched copy of the repository> builds a scratch copy of the harness whose path
+    dependencies point there, so that experiments never touch /repo's working tree."""
+    repo = os.environ.get("VERIF_REPO")
+    if not repo:
+        return HARNESS
+    repo = os.path.abspath(repo)
+    alt = os.path.join(WORK, "harness-" + repo.strip("/").replace("/", "_"))
+    os.makedirs(alt, exist_ok=True)
+    subprocess.run(["rsync", "-a", "--delete", "--exclude", "target", HARNESS + "/", alt + "/"], check=True)
+    for root, _, files in os.walk(alt):
+        if "target" in root.split(os.sep):
+            continue
+        for f in files:
+            if f == "Cargo.toml":
+                fp = os.path.join(root, f)
+                txt = open(fp).read()
+                if '"/repo/' in txt:
+                    open(fp, "w").write(txt.replace('"/repo/', '"%s/' % repo))
+    return alt
+
+
 def build_harness(ctx, package, extra_args=()):
     t0 = time.time()
+    hd = harness_dir()
     cmd = ["cargo", "build", "-p", package] + list(extra_args)
     env = dict(os.environ)
     env["CARGO_NET_OFFLINE"] = "true"
-    p = subprocess.run(cmd, cwd=HARNESS, stdout=subprocess.PIPE, stderr=subprocess.STDOUT, env=env, text=True)
+    p = subprocess.run(cmd, cwd=hd, stdout=subprocess.PIPE, stderr=subprocess.STDOUT, env=env, text=True)
     if p.returncode != 0:
         raise ToolError("harness build failed (%s):\n%s" % (package, p.stdout[-6000:]))
-    ctx.log("built %s in %.1fs" % (package, time.time() - t0))
-    return os.path.join(HARNESS, "target", "debug", package)
+    ctx.log("built %s in %.1fs%s" % (package, time.time() - t0, "" if hd == HARNESS else " (against %s)" % os.environ["VERIF_REPO"]))
+    return os.path.join(hd, "target", "debug", package)
 
 
 def run_harness(ctx, cmd, timeout=1800, stdin=None, env=None):
@@ -297,7 +321,7 @@ def finish(ctx, level, coverage, assumptions):
         print("KNOWN-FINDING: property=%s %s %s" % (ctx.prop, fid, text))
     coverage = dict(coverage)
     coverage["known_findings_hit"] = [fid for fid, _ in ctx.known_hits]
-    if not ctx.replay_mode:
+    if not ctx.replay_mode and not os.environ.get("VERIF_REPO"):
         write_evidence(ctx, level, coverage, assumptions, len(ctx.violations))
     if not ctx.violations:
         ctx.log("OK: property held on everything explored (%s tier)" % ctx.tier)
